@@ -14,6 +14,8 @@ use std::borrow::Cow;
 use ua_parser::device::Flag;
 
 fn main() {
+    // `--cfg vrl_verif` switches on verification instrumentation (off by default).
+    println!("cargo:rustc-check-cfg=cfg(vrl_verif)");
     read_grok_patterns();
 
     #[cfg(feature = "stdlib-base")]
